@@ -139,14 +139,16 @@ func captureClientBody(p *Pkg, op *Op, body reflect.Value, t *rapid.T) ([]byte, 
 }
 
 // paramsEqual compares what the client was given with what the server parsed.
-func paramsEqual(sent, got reflect.Value, sentRaw []byte) (bool, string) {
+func paramsEqual(sent, got reflect.Value, sentRaw []byte, gotRaw ...[]byte) (bool, string) {
 	typ := sent.Type()
 	for i := 0; i < typ.NumField(); i++ {
 		sf := typ.Field(i)
 		a, b := sent.Field(i), got.Field(i)
 		if sf.Name == "Body" && (sf.Type == readerType || sf.Type == rcType) {
 			var bs []byte
-			if !b.IsNil() {
+			if len(gotRaw) > 0 {
+				bs = gotRaw[0]
+			} else if !b.IsNil() {
 				bs, _ = io.ReadAll(b.Interface().(io.Reader))
 			}
 			if !bytes.Equal(bs, sentRaw) {
@@ -260,7 +262,7 @@ func CheckC09(p *Pkg, e *Env, r *res.Result) {
 			fail("server-rejected:"+parseErrClass(call.ParseErr), fmt.Sprintf("Parse() failed: %v", call.ParseErr))
 			return
 		}
-		if ok, why := paramsEqual(params, call.Params, raw); !ok {
+		if ok, why := paramsEqual(params, call.Params, raw, call.RawBody); !ok {
 			fail("params-differ:"+diffClass(why), "handler saw different parameters: "+why)
 			return
 		}
